@@ -7,6 +7,7 @@ package variablecontext
 // The task created for a parallel index receives that index's values in its context variables (C14), and the same
 // variables for the same task every time (C18).
 //@ func defaultProvider.MakeVariablesFromTask
+//@   locals subs: map[string]string; k: string
 //@   params c, task
 //@   tags C14, C18
 //@   loop 1 invariant forall k string :: visited(k) ==> (("task.index_matrix." + k) in subs) && subs["task.index_matrix." + k] == task.ParallelIndex.MatrixValues[k]
